@@ -1,5 +1,6 @@
 mod codec;
 mod distro;
+mod sequence;
 mod util;
 
 fn main() {
@@ -10,6 +11,7 @@ fn main() {
     match model {
         "codec" => codec::run(),
         "distro" => distro::run(),
+        "sequence" => sequence::run(),
         _ => {
             eprintln!("usage: harness <model>   (ops on stdin, one answer line per op on stdout)");
             std::process::exit(2);
